@@ -360,7 +360,8 @@ class Magnet():
 
         # Check for unknown parameters
         for key in query:
-            if key not in cls._KNOWN_PARAMETERS and not key.startswith('x_'):
+            # NOTE: __str__() renders "as_" and "x.<name>"
+            if key not in cls._KNOWN_PARAMETERS + ('as_',) and not key.startswith(('x.', 'x_')):
                 raise error.MagnetError(uri, f'{key}: Unknown parameter')
 
         if 'xt' not in query:
@@ -375,6 +376,7 @@ class Magnet():
                                       ('xl', 'xl', 'exact length', lambda v: v),
                                       ('xs', 'xs', 'exact source', lambda v: v),
                                       ('as', 'as_', 'acceptable source', lambda v: v),
+                                      ('as_', 'as_', 'acceptable source', lambda v: v),
                                       ('kt', 'kt', 'keyword topic', lambda v: v.split())):
             if param in query:
                 if len(query[param]) > 1:
@@ -387,6 +389,11 @@ class Magnet():
                            ('ws', 'webseed')):
             if param in query:
                 setattr(self, param, query[param])
+
+        # Custom parameters ("x.<name>")
+        for key,values in query.items():
+            if key.startswith(('x.', 'x_')):
+                self.x[key[2:]] = values[0]
 
         return self
 
